@@ -2,7 +2,7 @@
     Property theorems only; each is closed by [exact] of a lemma from
     Proofs/ChecksumProofs.v and followed by [Print Assumptions]. *)
 From Coq Require Import ZArith List Lia.
-From Copia Require Import Gen.Constants Model.Checksum Proofs.ChecksumProofs.
+From Copia Require Import Gen.Constants Model.Checksum Gen.ChecksumGen Proofs.ChecksumTie Proofs.ChecksumProofs.
 Import ListNotations.
 Open Scope Z_scope.
 
@@ -45,6 +45,13 @@ Theorem C17_types_agree_on_new : forall w : list Z,
   bytes w -> Z.of_nat (length w) <= 65536 -> rc_digest (rc_new w) = frc_digest (frc_new w).
 Proof. exact new_agree. Qed.
 Print Assumptions C17_types_agree_on_new.
+
+(** The model the theorems above are about is the translation of src/checksum.rs as it is now: every function
+    generated from the source by tools/gen_checksum.py (Gen/ChecksumGen.v, both integer semantics: new, roll, push,
+    digest of both types) equals the corresponding function of Model/Checksum.v. *)
+Theorem C17_model_is_translation_of_source : model_is_translation.
+Proof. exact model_is_translation_holds. Qed.
+Print Assumptions C17_model_is_translation_of_source.
 
 (** Non-vacuity: a concrete history meets the hypotheses, and the digest computed
     by the model on it is the expected number. *)
